@@ -14,9 +14,10 @@
 (* What the handlers do, in their order:                                   *)
 (*   Plot*   start the keeper if it is not started (the keeper refuses on  *)
 (*           a locked wallet, which the handler ignores), then the action  *)
-(*   Mine*   start the miner if it is not started, then the action (the    *)
-(*           keeper is not started: a registered space asked to mine is    *)
-(*           plotted only once some Plot call has started the keeper)      *)
+(*   Mine*   start the miner if it is not started, then the action.  The   *)
+(*           miner's own start (pocminer/miner/miner.go OnStart) starts    *)
+(*           the keeper if it is not started and fails if that fails (a    *)
+(*           locked wallet); the handler does not look at the outcome      *)
 (*   StopCapacitySpaces  stop the keeper, stop the miner, then Stop on     *)
 (*           every space                                                   *)
 (*   StopCapacitySpace   Stop on the space; if then no space is in the     *)
@@ -48,15 +49,21 @@ MineStanding(k) == \/ \E i \in BagToSet(k.queue) \cup {k.chan[j] : j \in DOMAIN 
 \* each handler: the keeper after it, the miner after it, its answer
 HPlotAll(k, m)    == LET k1 == StartIfNot(k) IN [k |-> Bulk(k1, States, "Plot"), m |-> m, res |-> BulkAnswer(k1, "Plot")]
 HPlotOne(k, m, w) == LET k1 == StartIfNot(k) IN [k |-> Act(k1, w, "Plot"), m |-> m, res |-> OneRes(k1, w, "Plot")]
-HMineAll(k, m)    == [k |-> Bulk(k, States, "Mine"), m |-> TRUE, res |-> BulkAnswer(k, "Mine")]
-HMineOne(k, m, w) == [k |-> Act(k, w, "Mine"), m |-> TRUE, res |-> OneRes(k, w, "Mine")]
+\* the miner's start: a started miner stays; otherwise the keeper is started first if it is not, which a locked wallet
+\* refuses - then the miner is not started either
+MinerStart(k, m) == IF m \/ k.run THEN [k |-> k, m |-> TRUE]
+                    ELSE IF Lk THEN [k |-> k, m |-> FALSE] ELSE [k |-> StartK(k), m |-> TRUE]
+HMineAll(k, m)    == LET s == MinerStart(k, m) IN [k |-> Bulk(s.k, States, "Mine"), m |-> s.m, res |-> BulkAnswer(s.k, "Mine")]
+HMineOne(k, m, w) == LET s == MinerStart(k, m) IN [k |-> Act(s.k, w, "Mine"), m |-> s.m, res |-> OneRes(s.k, w, "Mine")]
 HStopAll(k, m)    == LET k1 == IF k.run THEN StopK(k) ELSE k IN [k |-> Bulk(k1, States, "Stop"), m |-> FALSE, res |-> BulkAnswer(k1, "Stop")]
 HStopOne(k, m, w) == LET k2 == Act(k, w, "Stop") IN
                      [k |-> k2, m |-> IF Known(k, w) /\ ~AnyMining(k2) THEN FALSE ELSE m, res |-> OneRes(k, w, "Stop")]
 
 \* the same in two parts, for the trace specification: what a handler does to the keeper's (and the miner's) running
 \* state before it acts, and the keeper action with its answer
-Pre(call, k) == IF call \in {"PlotAll", "PlotOne"} THEN StartIfNot(k) ELSE IF call = "StopAll" /\ k.run THEN StopK(k) ELSE k
+Pre(call, k) == IF call \in {"PlotAll", "PlotOne"} THEN StartIfNot(k)
+                ELSE IF call \in {"MineAll", "MineOne"} THEN MinerStart(k, Mn).k
+                ELSE IF call = "StopAll" /\ k.run THEN StopK(k) ELSE k
 ActPart(call, k, w) == CASE call = "PlotAll" -> [k |-> Bulk(k, States, "Plot"), res |-> BulkAnswer(k, "Plot")]
                          [] call = "MineAll" -> [k |-> Bulk(k, States, "Mine"), res |-> BulkAnswer(k, "Mine")]
                          [] call = "StopAll" -> [k |-> Bulk(k, States, "Stop"), res |-> BulkAnswer(k, "Stop")]
@@ -96,17 +103,20 @@ ASpec == AInit /\ [][ANext]_avars
 Quiet(k) == /\ \A w \in Spaces : k.st[w] \notin {"plotting", "mining"}
             /\ k.chan = <<>> /\ BagCardinality(k.queue) = 0 /\ k.plt.pc = "idle" /\ ~k.run
 StopAllQuiets == [][(K' = HStopAll(K, Mn).k /\ Mn' = FALSE /\ K.plt.pc # "popped") => Quiet(K') \/ K' = K]_avars
-\* Mine* leaves the miner started; a space reaches the mining state only by a Mine call (directly, or standing with it)
-MineStartsMiner == [][\A w \in Spaces : (K' = HMineOne(K, Mn, w).k /\ Mn' = HMineOne(K, Mn, w).m) => Mn']_avars
+\* Mine* leaves the miner started unless the keeper had to be started for it and the wallet is locked
+MineStartsMiner == [][\A w \in Spaces : (K' = HMineOne(K, Mn, w).k /\ Mn' = HMineOne(K, Mn, w).m) => Mn' \/ (Lk /\ ~K.run)]_avars
+\* the miner is started only over a started keeper (StopCapacitySpaces stops both)
+MinerOverKeeper == Mn => K.run
 \* OBSERVATION (refuted, ApiControlObs.cfg): "a space is in the mining state only while the miner is started".
 \* StopCapacitySpace(w) stops the miner when no space is mining at that moment although a Mine request of another
 \* space is still standing; that space later reaches the mining state with the miner stopped.
 MiningNeedsMiner == AnyMining(K) => Mn
 \* the wallet is not locked under a started miner: once unlocked it stays unlocked for as long as the miner runs
 LockRefusedWhileMining == [][Mn /\ ~Lk /\ Mn' => ~Lk']_avars
-\* OBSERVATION (refuted, ApiControlObs2.cfg): "the miner runs only with an unlocked wallet".  The Mine handlers start the
-\* miner without looking at the wallet: on a node restarted with its configuration in place the wallet is locked until
-\* UnlockWallet, and a block found meanwhile cannot be signed.
+\* OBSERVATION (refuted, ApiControlObs2.cfg): "the miner runs only with an unlocked wallet".  The miner's start looks at the
+\* wallet only through the keeper's start: over a keeper that is already started (started while the wallet was unlocked; the
+\* wallet may be locked again while the miner is not started) the miner starts on a locked wallet, and a block found
+\* cannot be signed until UnlockWallet.
 MinerNeedsUnlocked == Mn => ~Lk
 \* the keeper is started only on an unlocked wallet (it may be locked afterwards, while the miner is not started)
 KeeperStartsUnlocked == [][~K.run /\ K'.run => ~Lk]_avars
